@@ -399,6 +399,18 @@ void PoolCase(Ctx& ctx, int force_workers, int force_stop) {
       // SoftStop can stop the pool only at a moment with no job queued or running.  If some accepted job was surely in
       // flight (Submit returned .. Call not yet begun/ended) during the whole interval [SoftStop call, this Submit
       // return] and the explicit Stop came later, the pool cannot have been stopped yet.
+      // a job submitted from inside a running job of the pool: the pool has a running job at that very moment, so a
+      // SoftStop cannot have taken effect yet
+      if (j.submitter == -1 && j.sub_ret < real_stop) {
+        for (auto& parent : w.jobs) {
+          if (parent.child == &j && parent.calls.load(kRlx) == 1) {
+            ctx.Fail("softstop-premature", "C08",
+                     "job %d, submitted from inside the running job %d (Submit returned t=%llu, before the explicit Stop "
+                     "t=%llu), was dropped: SoftStop stopped the pool while a job was running",
+                     j.id, parent.id, (unsigned long long)j.sub_ret, (unsigned long long)real_stop);
+          }
+        }
+      }
       if (j.sub_ret < real_stop) {
         for (auto& o : w.jobs) {
           if (&o != &j && o.submitted && o.calls.load(kRlx) == 1 && o.sub_ret < stop_call && o.end > j.sub_ret) {
